@@ -242,29 +242,53 @@ func ruleSpawnReport(w *World, r *RuleResult) {
 			off = p.Name()
 		}
 	}
-	// load index: core[(off + i) % M] with i the code index
+	// load index: core[(off + i) % M] with i the code index — in the spawn routine itself or in a
+	// module function it hands the offset to unchanged
 	loadOK := false
-	for _, p := range paths {
-		for i := range p.Events {
-			e := &p.Events[i]
-			if e.Kind == "store" {
-				if idx, f, ok := c.cell(e.LV); ok && f == "" {
-					ix := stripConv(idx)
-					if ix.Op == "rem" && c.isM(ix.A[1]) {
-						// value: Code[i]; index: offset + i (whatever form the loop counter takes)
-						l := linearOf(ix.A[0])
-						e.Val.walk(func(x *T) bool {
-							if x.Op == "elem" && len(x.A) == 2 {
-								if b := stripConv(x.A[0]); b.Op == "sel" && b.S == "Code" {
-									li := linearOf(x.A[1])
-									li.Coef[off]++
-									if l.equal(li) {
-										loadOK = true
+	type job struct {
+		fn  *ssa.Function
+		off string
+	}
+	seen := map[*ssa.Function]bool{}
+	for work := []job{{fn, off}}; len(work) > 0; work = work[1:] {
+		j := work[0]
+		if seen[j.fn] {
+			continue
+		}
+		seen[j.fn] = true
+		jpaths, err := w.Paths(j.fn)
+		if err != nil {
+			continue
+		}
+		for _, p := range jpaths {
+			for i := range p.Events {
+				e := &p.Events[i]
+				if e.Kind == "call" && e.Callee != nil && e.Callee.Pkg == fn.Pkg && len(e.Callee.Blocks) > 0 && len(e.Args) == len(e.Callee.Params) {
+					for k, a := range e.Args {
+						if a = stripConv(a); a.Op == "p" && a.S == j.off {
+							work = append(work, job{e.Callee, e.Callee.Params[k].Name()})
+						}
+					}
+				}
+				if e.Kind == "store" {
+					if idx, f, ok := c.cell(e.LV); ok && f == "" {
+						ix := stripConv(idx)
+						if ix.Op == "rem" && c.isM(ix.A[1]) {
+							// value: Code[i]; index: offset + i (whatever form the loop counter takes)
+							l := linearOf(ix.A[0])
+							e.Val.walk(func(x *T) bool {
+								if x.Op == "elem" && len(x.A) == 2 {
+									if b := stripConv(x.A[0]); b.Op == "sel" && b.S == "Code" {
+										li := linearOf(x.A[1])
+										li.Coef[j.off]++
+										if l.equal(li) {
+											loadOK = true
+										}
 									}
 								}
-							}
-							return true
-						})
+								return true
+							})
+						}
 					}
 				}
 			}
